@@ -77,11 +77,27 @@ def instances(tier):
     # a prior with an entry exactly 0 (the state is never prepared, but excluding it is still required to be free)
     fam.append(("3 complex qubit kets, prior (1/2,1/2,0)", [np.array([1, 0j]), np.array([0.5, 0.5]), np.array([0.5, 0.5j])], [0.5, 0.5, 0.0]))
     fam.append(("4 complex qubit kets, uniform", [np.array([1, 0j]), np.array([0, 1j]), np.array([0.5, 0.5j]), np.array([0.5, -0.5])], None))
+    # fewer dimensions spanned than states and than the space has, a state in the span of its predecessors listed BEFORE one outside
+    # it, no coordinate axis singled out (round-6 seed: the program restricted to the span through an unpivoted QR factorisation)
+    fam.append(("4 complex d=4 kets spanning 3 dimensions, the third in the span of the first two, prior (1/4,1/4,1/4,1/4)",
+                [np.array([1, 0.5, 0, 0.5j]), np.array([0.5, 1, 0.5, 0]), np.array([1.5, 1.5, 0.5, 0.5j]), np.array([0.25 + 0.5j, 0.5j, 1, -0.5 + 0.25j])], None))
     if T:
         fam.append(("5 complex qubit kets", [np.array([1, 0j]), np.array([0, 1j]), np.array([0.5, 0.5j]), np.array([0.5, -0.5]), np.array([0.25, 0.75j])], [0.125, 0.125, 0.25, 0.25, 0.25]))
         fam.append(("3 complex d=4 kets", [np.array([1, 0, 0.5j, 0]), np.array([0.5, 0.5, 0, 0.5j]), np.array([0, 0.25, 0.25j, 1])], [0.5, 0.25, 0.25]))
         fam += random_dyadic_ensembles(60, 11)
     return fam
+
+
+def min_error_exclusion_oracle(inst):
+    """independent optimum for replay: min sum_i p_i Tr(rho_i M_i) over POVMs, written from the definition with cvxpy (used when the
+    captured program cannot even be compared structurally, e.g. it lives in a space of another dimension)"""
+    import cvxpy
+    vs, ps = inst
+    rhos = [np.array([[complex(float(lift(x).re.t.get((), 0)), float(lift(x).im.t.get((), 0))) for x in row] for row in rho_exact(v)]) for v in vs]
+    d = rhos[0].shape[0]
+    Ms = [cvxpy.Variable((d, d), hermitian=True) for _ in vs]
+    prob = cvxpy.Problem(cvxpy.Minimize(cvxpy.real(sum(float(p) * cvxpy.trace(r @ M) for p, r, M in zip(ps, rhos, Ms)))), [M >> 0 for M in Ms] + [sum(Ms) == np.eye(d)])
+    return float(prob.solve())
 
 
 def ref_me_primal(V, inst):
@@ -236,7 +252,9 @@ def obligations(tier):
                 cfg = {"instance": name, "strategy": strat, "primal_dual": pd}
                 obs.append(SdpTask("state_exclusion.program_is_textbook_program", cfg,
                                    (lambda vs=vs, ps=ps, strat=strat, pd=pd: state_exclusion(vs, ps, strategy=strat, primal_dual=pd)),
-                                   REFS[(strat, pd)], instance=(vs, pp)))
+                                   REFS[(strat, pd)], instance=(vs, pp), replay_oracle=min_error_exclusion_oracle if strat == "min_error" else None))
+    from props.c10 import earlier_result_tasks
+    obs += earlier_result_tasks(state_exclusion, "state_exclusion.returned_measurement_is_unchanged_by_a_later_call")
     from props.c09 import DualityTask
     for name, vs, ps in instances(tier):
         obs.append(DualityTask("state_exclusion.min_error_dual_is_lagrange_dual_of_primal", {"instance": name},
